@@ -21,9 +21,14 @@ theorem FoldEq.getElem {a b : Array Char} (h : FoldEq lower a b) (i : Nat) (ha :
   have h1 : (a.toList.map lower)[i]? = (b.toList.map lower)[i]? := by rw [h]
   simpa [List.getElem?_map, ha, hb] using h1
 
+theorem slice_eq (a : Array Char) (pos n : Nat) : slice a pos n = (a.toList.drop pos).take n := by
+  unfold slice
+  rw [Array.toList_extract]
+  simp
+
 theorem slice_map_lower {a b : Array Char} (h : FoldEq lower a b) (pos n : Nat) :
     (slice a pos n).map lower = (slice b pos n).map lower := by
-  unfold slice
+  rw [slice_eq, slice_eq]
   rw [List.map_take, List.map_drop, List.map_take, List.map_drop, h]
 
 /-- `StrMatch` with `ignore_case` does not see letter case -/
